@@ -1153,3 +1153,235 @@ def comprehend_loops(stmts: Sequence[ast.stmt]) -> List[ast.stmt]:
                     continue
         out.append(st)
     return out
+
+
+# --------------------------------------------------------------------------------------
+# affine forms with rounding slack over one integer symbol (C13 R6: whole-worker memory of the machine table vs the per-core memory jobs are given)
+# --------------------------------------------------------------------------------------
+
+from fractions import Fraction  # noqa: E402
+
+
+class Aff:
+    """k*x + [lo, hi] for ONE integer symbol x >= 1: for every x the value of the expression lies in that interval (k, lo, hi rational).
+    Roundings (int / floor / ceil / round / //) widen [lo, hi] unless the operand is integral for every integer x."""
+    __slots__ = ('k', 'lo', 'hi')
+
+    def __init__(self, k, lo, hi):
+        self.k, self.lo, self.hi = Fraction(k), Fraction(lo), Fraction(hi)
+
+    def is_const(self) -> bool:
+        return self.k == 0 and self.lo == self.hi
+
+    def integral(self) -> bool:
+        return self.k.denominator == 1 and self.lo == self.hi and self.lo.denominator == 1
+
+    def __repr__(self) -> str:
+        return f'{self.k}*x+[{self.lo},{self.hi}]'
+
+
+class NotApplicable(Exception):
+    """the evaluated function rejects these (constant) arguments: an assertion on them fails / a table has no such key"""
+
+
+class AffUndecided(Exception):
+    """outside the fragment: no verdict"""
+
+
+class _DictRef:
+    def __init__(self, m: pf.Module, node: ast.Dict):
+        self.m, self.node = m, node
+
+
+class AffEval:
+    """Abstract execution of module-level arithmetic helpers over values  Aff | str | bool | None | tuple | _DictRef (a module-level dict literal):
+    straight-line bodies, if / elif chains whose tests the constants decide (explicit case split by the caller: one evaluation per table entry),
+    assertions on constants, subscripts of dict literals by constant keys."""
+
+    def __init__(self, m: pf.Module, env: Dict[str, object], depth: int = 6):
+        self.m, self.env, self.depth = m, env, depth
+
+    def ev(self, e: ast.AST) -> object:
+        if isinstance(e, ast.Constant):
+            v = e.value
+            if isinstance(v, bool) or v is None or isinstance(v, str):
+                return v
+            if isinstance(v, (int, float)):
+                return Aff(0, Fraction(v), Fraction(v))
+            raise AffUndecided(f'constant {v!r}')
+        if isinstance(e, ast.Name):
+            if e.id in self.env:
+                return self.env[e.id]
+            try:
+                g = self.m.global_assign(e.id)
+            except AnalysisError:
+                raise AffUndecided(f'unbound name {e.id}')
+            if isinstance(g, ast.Dict):
+                return _DictRef(self.m, g)
+            if self.depth <= 0:
+                raise AffUndecided('too deep')
+            return AffEval(self.m, {}, self.depth - 1).ev(g)
+        if isinstance(e, ast.Tuple):
+            return tuple(self.ev(x) for x in e.elts)
+        if isinstance(e, ast.UnaryOp) and isinstance(e.op, ast.USub):
+            a = self.num(e.operand)
+            return Aff(-a.k, -a.hi, -a.lo)
+        if isinstance(e, ast.UnaryOp) and isinstance(e.op, ast.Not):
+            v = self.ev(e.operand)
+            if isinstance(v, bool):
+                return not v
+            raise AffUndecided(f'truth of `{pf.nsrc(e)}`')
+        if isinstance(e, ast.BoolOp):
+            vs = [self.ev(x) for x in e.values]
+            if all(isinstance(v, bool) for v in vs):
+                return all(vs) if isinstance(e.op, ast.And) else any(vs)
+            raise AffUndecided(f'truth of `{pf.nsrc(e)}`')
+        if isinstance(e, ast.BinOp):
+            a, b = self.num(e.left), self.num(e.right)
+            if isinstance(e.op, ast.Add):
+                return Aff(a.k + b.k, a.lo + b.lo, a.hi + b.hi)
+            if isinstance(e.op, ast.Sub):
+                return Aff(a.k - b.k, a.lo - b.hi, a.hi - b.lo)
+            if isinstance(e.op, ast.Mult):
+                if not (a.is_const() or b.is_const()):
+                    raise AffUndecided(f'non-linear `{pf.nsrc(e)}`')
+                c, o = (a.lo, b) if a.is_const() else (b.lo, a)
+                lo, hi = sorted((o.lo * c, o.hi * c))
+                return Aff(o.k * c, lo, hi)
+            if isinstance(e.op, (ast.Div, ast.FloorDiv)):
+                if not b.is_const() or b.lo <= 0:
+                    raise AffUndecided(f'division by a non-constant in `{pf.nsrc(e)}`')
+                r = Aff(a.k / b.lo, a.lo / b.lo, a.hi / b.lo)
+                if isinstance(e.op, ast.FloorDiv):
+                    r = self._round(r, 'floor')
+                return r
+            if isinstance(e.op, ast.Pow) and a.is_const() and b.is_const() and b.lo.denominator == 1 and 0 <= b.lo <= 64:
+                v = a.lo ** int(b.lo)
+                return Aff(0, v, v)
+            raise AffUndecided(f'operator in `{pf.nsrc(e)}`')
+        if isinstance(e, ast.Compare) and len(e.ops) == 1:
+            a, b = self.ev(e.left), self.ev(e.comparators[0])
+            op = e.ops[0]
+            if isinstance(op, (ast.In, ast.NotIn)) and isinstance(b, _DictRef):
+                keys = [AffEval(b.m, {}, self.depth - 1).ev(k) if k is not None else None for k in b.node.keys]
+                if any(k is None or isinstance(k, (Aff, _DictRef)) for k in keys) or isinstance(a, (Aff, _DictRef)):
+                    raise AffUndecided(f'membership `{pf.nsrc(e)}`')
+                return (a in keys) if isinstance(op, ast.In) else (a not in keys)
+            ca, cb = self.constant(a), self.constant(b)
+            if isinstance(op, (ast.Eq, ast.NotEq)) and ca is not _NOCONST and cb is not _NOCONST:
+                return (ca == cb) if isinstance(op, ast.Eq) else (ca != cb)
+            if isinstance(op, (ast.Is, ast.IsNot)) and b is None and (a is None or isinstance(a, (str, bool, Aff, tuple))):
+                return (a is None) if isinstance(op, ast.Is) else (a is not None)
+            raise AffUndecided(f'comparison `{pf.nsrc(e)}`')
+        if isinstance(e, ast.Subscript):
+            d, k = self.ev(e.value), self.ev(e.slice)
+            if isinstance(d, _DictRef) and self.constant(k) is not _NOCONST:
+                sub = AffEval(d.m, {}, self.depth - 1)
+                for kk, vv in zip(d.node.keys, d.node.values):
+                    if kk is None:
+                        raise AffUndecided('** in a table')
+                    if self.constant(sub.ev(kk)) == self.constant(k):
+                        return sub.ev(vv)
+                raise NotApplicable(f'{pf.nsrc(e.value)} has no key {self.constant(k)!r}')
+            raise AffUndecided(f'subscript `{pf.nsrc(e)}`')
+        if isinstance(e, ast.Call):
+            f = pf.dotted(e.func) or ''
+            if e.keywords and f in ('int', 'float', 'round', 'math.floor', 'math.ceil'):
+                raise AffUndecided(f'`{pf.nsrc(e)}`')
+            if f in ('int', 'math.floor', 'floor', 'math.trunc') and len(e.args) == 1:
+                return self._round(self.num(e.args[0]), 'floor')
+            if f in ('math.ceil', 'ceil') and len(e.args) == 1:
+                return self._round(self.num(e.args[0]), 'ceil')
+            if f == 'round' and len(e.args) == 1:
+                return self._round(self.num(e.args[0]), 'round')
+            if f == 'float' and len(e.args) == 1:
+                return self.num(e.args[0])
+            if isinstance(e.func, ast.Name) and self.m.has_func(e.func.id) and self.depth > 0:
+                fn = self.m.func(e.func.id)
+                return self.call(fn, [self.ev(a) for a in e.args], {k.arg: self.ev(k.value) for k in e.keywords if k.arg is not None})
+            raise AffUndecided(f'call `{short(pf.nsrc(e), 50)}`')
+        raise AffUndecided(f'expression `{short(pf.nsrc(e), 50)}`')
+
+    @staticmethod
+    def _round(a: Aff, how: str) -> Aff:
+        """floor / ceil / round-half of a non-negative quantity: exact on constants and on forms that are integral for every integer x, else one unit of slack"""
+        import math
+        if a.integral():
+            return a
+        if a.k == 0:
+            f = {'floor': math.floor, 'ceil': math.ceil, 'round': lambda v: math.floor(v + Fraction(1, 2))}[how]
+            return Aff(0, f(a.lo), f(a.hi))
+        if how == 'floor':
+            return Aff(a.k, a.lo - 1, a.hi)
+        if how == 'ceil':
+            return Aff(a.k, a.lo, a.hi + 1)
+        return Aff(a.k, a.lo - Fraction(1, 2), a.hi + Fraction(1, 2))
+
+    @staticmethod
+    def constant(v: object) -> object:
+        if isinstance(v, Aff):
+            return v.lo if v.is_const() else _NOCONST
+        if isinstance(v, tuple):
+            parts = [AffEval.constant(x) for x in v]
+            return _NOCONST if any(p is _NOCONST for p in parts) else tuple(parts)
+        if isinstance(v, _DictRef):
+            return _NOCONST
+        return v
+
+    def num(self, e: ast.AST) -> Aff:
+        v = self.ev(e)
+        if not isinstance(v, Aff):
+            raise AffUndecided(f'`{short(pf.nsrc(e), 40)}` is not a number')
+        return v
+
+    def call(self, fn: pf.FuncDef, args: Sequence[object], kwargs: Dict[str, object]) -> object:
+        ps = [a.arg for a in list(fn.args.posonlyargs) + list(fn.args.args)]
+        if fn.args.vararg or fn.args.kwarg or len(args) > len(ps) or any(k not in ps for k in kwargs):
+            raise AffUndecided(f'call of {fn.name}')
+        env: Dict[str, object] = dict(zip(ps, args))
+        env.update(kwargs)
+        if set(env) != set(ps):
+            raise AffUndecided(f'call of {fn.name}: arguments')
+        sub = AffEval(self.m, env, self.depth - 1)
+        r = sub.block(fn.body)
+        if r is _FALLS:
+            raise AffUndecided(f'{fn.name} returns nothing')
+        return r
+
+    def block(self, stmts: Sequence[ast.stmt]) -> object:
+        for st in stmts:
+            if isinstance(st, ast.Expr) and isinstance(st.value, ast.Constant):
+                continue
+            if isinstance(st, ast.Pass):
+                continue
+            if isinstance(st, ast.Assign) and len(st.targets) == 1 and isinstance(st.targets[0], ast.Name):
+                self.env[st.targets[0].id] = self.ev(st.value)
+            elif isinstance(st, ast.AnnAssign) and isinstance(st.target, ast.Name) and st.value is not None:
+                self.env[st.target.id] = self.ev(st.value)
+            elif isinstance(st, ast.Assert):
+                try:
+                    v = self.ev(st.test)
+                except AffUndecided:
+                    continue
+                if v is False:
+                    raise NotApplicable(f'`assert {short(pf.nsrc(st.test), 50)}` fails')
+            elif isinstance(st, ast.Return):
+                if st.value is None:
+                    return None
+                return self.ev(st.value)
+            elif isinstance(st, ast.Raise):
+                raise NotApplicable(f'`{short(pf.nsrc(st), 50)}`')
+            elif isinstance(st, ast.If):
+                v = self.ev(st.test)
+                if not isinstance(v, bool):
+                    raise AffUndecided(f'test `{short(pf.nsrc(st.test), 50)}` is not decided by the constants')
+                r = self.block(st.body if v else st.orelse)
+                if r is not _FALLS:
+                    return r
+            else:
+                raise AffUndecided(f'statement `{short(pf.nsrc(st), 50)}`')
+        return _FALLS
+
+
+_NOCONST = object()
+_FALLS = object()
